@@ -137,6 +137,19 @@ pub fn batch(seed: u64, tier: Tier) -> &'static Batch {
 fn make_program(seed: u64, i: usize) -> String {
     if i % 5 == 4 {
         PROBES[(i / 5) % PROBES.len()].to_string()
+    } else if i % 50 == 17 {
+        // deep nesting (native recursion in the parser, the compiler, the collector and the renderer:
+        // whatever bounds it must not depend on the build, the thread or what ran before)
+        let k = (i / 50) % 6;
+        let nest = |open: &str, inner: &str, close: &str, d: usize| format!("{}{}{}", open.repeat(d), inner, close.repeat(d));
+        match k {
+            0 => format!("{} + 1", nest("(", "1", ")", 600)),
+            1 => nest("[", "1.5", "]", 150),
+            2 => nest("(-", "1", ")", 300),
+            3 => nest("{ ", "7", " }", 150),
+            4 => nest("als ja { ", "string(3)", " }", 120),
+            _ => format!("{}()", nest("functie() { ", "[2.5]", " }", 40)),
+        }
     } else if i % 50 == 7 {
         // many constants (a constant pool cached between evaluations would show here)
         let items: Vec<String> = (0..120)
